@@ -584,3 +584,267 @@ Section create.
     exists t'. rewrite Ht in Ht0. injection Ht0 as <-. done.
   Qed.
 End create.
+
+(** ** Removing an entity's row *)
+Section remove.
+  Context (w : world) (live : list Entity) (e : Entity) (src row : nat) (st : table) (sn : node).
+  Hypothesis S : store_ok w live.
+  Hypothesis Hlive : e ∈ live.
+  Hypothesis Hloc : loc w e = Some (src, row).
+  Hypothesis Hst : w_tables w !! src = Some st.
+  Hypothesis Hsn : w_nodes w !! t_node st = Some sn.
+
+  (** The world after [archetype.Remove], the swap fix-up and [index.arch = nil]. *)
+  Definition remove_row : world :=
+    let '(st1, swapped) := tbl_remove (zero_row sn) st row in
+    let idx1 := if swapped then
+                  match t_ents st1 !! row with
+                  | Some se => <[eid se := Some (src, row)]> (w_index w)
+                  | None => w_index w
+                  end
+                else w_index w in
+    w <| w_tables := <[src := st1]> (w_tables w) |> <| w_index := <[eid e := None]> idx1 |>.
+
+  Theorem remove_row_ok :
+    store_ok remove_row (filter (fun x => x <> e) live) /\ w_nodes remove_row = w_nodes w /\
+    (forall e', e' ∈ live -> e' <> e -> ent_cells remove_row e' = ent_cells w e') /\
+    loc remove_row e = None /\
+    (forall tid, tid <> src -> w_tables remove_row !! tid = w_tables w !! tid) /\
+    (exists st1, w_tables remove_row !! src = Some st1 /\ tlen st1 = tlen st - 1 /\ t_node st1 = t_node st /\
+                 t_target st1 = t_target st /\ t_active st1 = t_active st).
+  Proof.
+    destruct (move_src_row w live e src row st S Hlive Hloc Hst) as [Hrow Hrlt].
+    destruct (so_table _ _ S src st Hst) as (n1 & Hn1 & Hok). rewrite Hsn in Hn1. injection Hn1 as <-.
+    unfold remove_row.
+    pose proof (tbl_remove_spec (zero_row sn) st row Hok Hrlt) as Hr.
+    destruct (tbl_remove (zero_row sn) st row) as [st1 swapped].
+    destruct Hr as (-> & Hse & Hsl & Hsok & Hsrl & Hsr & Hsn1 & Hstg & Hsa & Hsly).
+    set (last := tlen st - 1) in *.
+    assert (Hlast_lt : last < tlen st) by (unfold last; lia).
+    destruct (t_ents st !! last) as [se|] eqn:Hse_l; [|apply lookup_ge_None in Hse_l; unfold tlen in *; lia].
+    destruct (so_rows _ _ S src st last se Hst Hse_l) as [Hse_live Hse_loc].
+    assert (Hst1_ents : forall i, i < last -> t_ents st1 !! i = if decide (i = row) then Some se else t_ents st !! i).
+    { intros i Hi. rewrite Hse, swap_remove_lookup by (unfold tlen, last in *; lia).
+      destruct (decide (i = row)); [|done]. fold (tlen st). fold last. done. }
+    assert (Hst1_len : tlen st1 = last) by done.
+    set (w' := w <| w_tables := <[src := st1]> (w_tables w) |> <| w_index := _ |>).
+    assert (Hlk : forall tid, w_tables w' !! tid = if decide (tid = src) then Some st1 else w_tables w !! tid).
+    { intros tid. unfold w'. simpl. by eapply lookup_insert_cases. }
+    assert (Hse_ne : row <> last -> se <> e).
+    { intros Hrl ->. rewrite Hloc in Hse_loc. injection Hse_loc as ->. done. }
+    assert (Hloc' : forall e0, e0 ∈ live -> loc w' e0 =
+              if decide (e0 = e) then None
+              else if decide (row <> last /\ e0 = se) then Some (src, row) else loc w e0).
+    { intros e0 He0. unfold w', loc. simpl.
+      destruct (decide (e0 = e)) as [->|Hn0].
+      - rewrite list_lookup_insert; [done|].
+        destruct (negb _); [rewrite Hst1_ents' || idtac|]; unfold loc in Hloc;
+          destruct (w_index w !! eid e) eqn:Hx; try done; apply lookup_lt_Some in Hx;
+          try (destruct (t_ents st1 !! row); [by rewrite insert_length|done]); done.
+      - assert (eid e0 <> eid e) by (intros Heq; apply Hn0; by eapply live_eid_inj).
+        rewrite list_lookup_insert_ne by done.
+        destruct (row =? last) eqn:Hrl; simpl.
+        + apply Nat.eqb_eq in Hrl. destruct (decide (row <> last /\ e0 = se)) as [[? _]|]; done.
+        + apply Nat.eqb_neq in Hrl. rewrite (Hst1_ents row) by lia. destruct (decide (row = row)); [|done].
+          destruct (decide (row <> last /\ e0 = se)) as [[_ ->]|Hns].
+          * rewrite list_lookup_insert; [done|]. unfold loc in Hse_loc.
+            destruct (w_index w !! eid se) eqn:Hx; [by apply lookup_lt_Some in Hx|done].
+          * assert (eid e0 <> eid se).
+            { intros Heq. apply Hns. split; [done|]. by eapply live_eid_inj. }
+            by rewrite list_lookup_insert_ne. }
+    split; [|split; [done|split; [|split; [|split]]]].
+    - split.
+      + pose proof (so_live_nodup _ _ S) as Hnd. clear -Hnd. induction live as [|x l IH]; [constructor|].
+        simpl in Hnd. apply NoDup_cons in Hnd as [Hx Hnd]. rewrite filter_cons. destruct (decide (x <> e)); [|by apply IH].
+        simpl. constructor; [|by apply IH]. intros Hin. apply Hx. apply elem_of_list_fmap in Hin as (y & -> & Hy).
+        apply elem_of_list_filter in Hy as [_ Hy]. apply elem_of_list_fmap. by exists y.
+      + intros e0 He0. apply elem_of_list_filter in He0 as [Hn0 He0]. rewrite (Hloc' e0 He0).
+        destruct (decide (e0 = e)); [done|].
+        destruct (decide (row <> last /\ e0 = se)) as [[Hrl ->]|Hns].
+        * exists src, row, st1. split; [done|]. rewrite Hlk. destruct (decide (src = src)); [|done]. split; [done|].
+          rewrite Hst1_ents by lia. by destruct (decide (row = row)).
+        * destruct (so_loc _ _ S e0 He0) as (tid0 & row0 & t0 & Hl0 & Ht0 & Hr0). exists tid0, row0. rewrite Hlk.
+          destruct (decide (tid0 = src)) as [->|Hts]; [|by exists t0].
+          rewrite Hst in Ht0. injection Ht0 as <-. exists st1. split; [done|]. split; [done|].
+          assert (row0 <> row). { intros ->. rewrite Hrow in Hr0. by injection Hr0 as ->. }
+          assert (row0 < last).
+          { pose proof (lookup_lt_Some _ _ _ Hr0) as Hlt0.
+            destruct (decide (row0 = last)) as [->|Hnl]; [|clear -Hlt0 Hnl Hrlt; subst last; unfold tlen in *; lia].
+            rewrite Hse_l in Hr0. injection Hr0 as ->. destruct (decide (row = last)) as [->|]; [done|]. exfalso. by apply Hns. }
+          rewrite Hst1_ents by done. by destruct (decide (row0 = row)).
+      + intros tid0 t0 row0 e0 Ht0 Hr0. rewrite Hlk in Ht0. destruct (decide (tid0 = src)) as [->|Hts].
+        * injection Ht0 as <-. assert (row0 < last). { apply lookup_lt_Some in Hr0. by rewrite <- Hst1_len. }
+          rewrite Hst1_ents in Hr0 by done. destruct (decide (row0 = row)) as [->|Hnr].
+          -- injection Hr0 as <-. assert (se <> e) by (apply Hse_ne; lia).
+             split; [apply elem_of_list_filter; done|]. rewrite (Hloc' se Hse_live). destruct (decide (se = e)); [done|].
+             destruct (decide (row <> last /\ se = se)) as [|Hn]; [done|]. exfalso. apply Hn. split; [lia|done].
+          -- destruct (so_rows _ _ S src st row0 e0 Hst Hr0) as [He0 Hl0].
+             assert (e0 <> e). { intros ->. rewrite Hloc in Hl0. by injection Hl0 as ->. }
+             split; [apply elem_of_list_filter; done|]. rewrite (Hloc' e0 He0). destruct (decide (e0 = e)); [done|].
+             destruct (decide (row <> last /\ e0 = se)) as [[_ ->]|]; [|done]. rewrite Hse_loc in Hl0. injection Hl0 as ->. lia.
+        * destruct (so_rows _ _ S tid0 t0 row0 e0 Ht0 Hr0) as [He0 Hl0].
+          assert (e0 <> e). { intros ->. rewrite Hloc in Hl0. injection Hl0 as -> _. done. }
+          split; [apply elem_of_list_filter; done|]. rewrite (Hloc' e0 He0). destruct (decide (e0 = e)); [done|].
+          destruct (decide (row <> last /\ e0 = se)) as [[_ ->]|]; [|done]. rewrite Hse_loc in Hl0. by injection Hl0 as ->.
+      + intros tid0 t0 Ht0. rewrite Hlk in Ht0. change (w_nodes w') with (w_nodes w).
+        destruct (decide (tid0 = src)) as [->|]; [injection Ht0 as <-; exists sn; by rewrite Hsn1|by apply (so_table _ _ S tid0 t0 Ht0)].
+    - intros e0 He0 Hn0. unfold ent_cells. rewrite (Hloc' e0 He0). destruct (decide (e0 = e)); [done|].
+      destruct (decide (row <> last /\ e0 = se)) as [[Hrl ->]|Hns].
+      + rewrite Hse_loc. simpl. rewrite Hlk, Hst. destruct (decide (src = src)); [|done]. simpl.
+        rewrite Hsr by lia. destruct (decide (row = row)); [|done]. fold last.
+        destruct (t_rows st !! last); simpl; [by rewrite Hsn1, Hstg|done].
+      + destruct (so_loc _ _ S e0 He0) as (tid0 & row0 & t0 & Hl0 & Ht0 & Hr0). rewrite Hl0. simpl.
+        rewrite Hlk, Ht0. destruct (decide (tid0 = src)) as [->|Hts]; [|done].
+        rewrite Hst in Ht0. injection Ht0 as <-. simpl.
+        assert (row0 <> row). { intros ->. rewrite Hrow in Hr0. by injection Hr0 as ->. }
+        assert (row0 < last).
+        { pose proof (lookup_lt_Some _ _ _ Hr0) as Hlt0.
+          destruct (decide (row0 = last)) as [->|Hnl]; [|clear -Hlt0 Hnl Hrlt; subst last; unfold tlen in *; lia].
+          rewrite Hse_l in Hr0. injection Hr0 as ->. destruct (decide (row = last)) as [->|]; [done|]. exfalso. by apply Hns. }
+        rewrite Hsr by done. destruct (decide (row0 = row)); [done|].
+        destruct (t_rows st !! row0); simpl; [by rewrite Hsn1, Hstg|done].
+    - rewrite (Hloc' e Hlive). by destruct (decide (e = e)).
+    - intros tid Hne. rewrite Hlk. by destruct (decide (tid = src)).
+    - exists st1. rewrite Hlk. destruct (decide (src = src)); [|done]. done.
+  Qed.
+End remove.
+
+(** ** Retiring an empty table disturbs nothing (C06) *)
+Lemma retire_table_keeps w live tid t :
+  store_ok w live -> w_tables w !! tid = Some t -> tlen t = 0 ->
+  store_ok (retire_table w tid) live /\ w_pool (retire_table w tid) = w_pool w /\ w_index (retire_table w tid) = w_index w /\
+  (forall e, ent_cells (retire_table w tid) e = ent_cells w e) /\
+  (forall tid' t', w_tables w !! tid' = Some t' -> exists t'', w_tables (retire_table w tid) !! tid' = Some t'' /\
+       t_ents t'' = t_ents t' /\ t_rows t'' = t_rows t' /\ t_node t'' = t_node t' /\ t_target t'' = t_target t') /\
+  (forall nid nd, w_nodes w !! nid = Some nd -> exists nd', w_nodes (retire_table w tid) !! nid = Some nd' /\
+       n_mask nd' = n_mask nd /\ n_ids nd' = n_ids nd /\ n_rel nd' = n_rel nd).
+Proof.
+  intros S Ht Hlen. unfold retire_table. rewrite Ht.
+  destruct (so_table _ _ S tid t Ht) as (nd & Hnd & Hok). rewrite Hnd.
+  assert (Hreset : tbl_reset (zero_row nd) t = t) by (unfold tbl_reset; by rewrite Hlen).
+  rewrite Hreset.
+  set (nd' := nd <| n_tmap := assoc_del (t_target t) (n_tmap nd) |> <| n_free := n_free nd ++ [tid] |>).
+  set (t' := t <| t_active := false |>).
+  set (w' := w <| w_nodes := <[t_node t := nd']> (w_nodes w) |> <| w_tables := <[tid := t']> (w_tables w) |>
+               <| w_cache := map (centry_remove tid) (w_cache w) |>).
+  assert (Htl : forall j, w_tables w' !! j = if decide (j = tid) then Some t' else w_tables w !! j).
+  { intros j. unfold w'. simpl. by eapply lookup_insert_cases. }
+  assert (Hnl : forall j, w_nodes w' !! j = if decide (j = t_node t) then Some nd' else w_nodes w !! j).
+  { intros j. unfold w'. simpl. by eapply lookup_insert_cases. }
+  assert (Hnodes : forall nid n0, w_nodes w !! nid = Some n0 -> exists n0', w_nodes w' !! nid = Some n0' /\
+       n_mask n0' = n_mask n0 /\ n_ids n0' = n_ids n0 /\ n_rel n0' = n_rel n0).
+  { intros nid n0 H0. rewrite Hnl. destruct (decide (nid = t_node t)) as [->|]; [|by exists n0].
+    rewrite Hnd in H0. injection H0 as <-. by exists nd'. }
+  assert (Htabs : forall tid0 t0, w_tables w !! tid0 = Some t0 -> exists t0', w_tables w' !! tid0 = Some t0' /\
+       t_ents t0' = t_ents t0 /\ t_rows t0' = t_rows t0 /\ t_node t0' = t_node t0 /\ t_target t0' = t_target t0).
+  { intros tid0 t0 H0. rewrite Htl. destruct (decide (tid0 = tid)) as [->|]; [|by exists t0].
+    rewrite Ht in H0. injection H0 as <-. by exists t'. }
+  split; [|split; [done|split; [done|split; [|done]]]].
+  - split.
+    + apply S.
+    + intros e He. destruct (so_loc _ _ S e He) as (tid0 & row0 & t0 & Hl0 & Ht0 & Hr0).
+      destruct (Htabs tid0 t0 Ht0) as (t0' & Ht0' & He0 & _). exists tid0, row0, t0'. split; [done|]. split; [done|]. by rewrite He0.
+    + intros tid0 t0' row0 e Ht0' Hr0. rewrite Htl in Ht0'. destruct (decide (tid0 = tid)) as [->|].
+      * injection Ht0' as <-. by apply (so_rows _ _ S tid t row0 e).
+      * by apply (so_rows _ _ S tid0 t0' row0 e).
+    + intros tid0 t0' Ht0'. rewrite Htl in Ht0'. destruct (decide (tid0 = tid)) as [->|].
+      * injection Ht0' as <-. exists nd'. change (t_node t') with (t_node t). rewrite Hnl.
+        destruct (decide (t_node t = t_node t)); [|done]. split; [done|].
+        destruct Hok as [Hc Hw Hz]. by split.
+      * destruct (so_table _ _ S tid0 t0' Ht0') as (n0 & Hn0 & Hok0).
+        destruct (Hnodes _ n0 Hn0) as (n0' & Hn0' & _ & Hi0 & _). exists n0'. split; [done|]. unfold zero_row in *. by rewrite Hi0.
+  - intros e. unfold ent_cells. change (loc w' e) with (loc w e). destruct (loc w e) as [[tid0 row0]|]; [|done]. simpl.
+    rewrite Htl. destruct (decide (tid0 = tid)) as [->|]; [|done]. by rewrite Ht.
+Qed.
+
+Lemma cleanup_table_keeps w live tid :
+  store_ok w live ->
+  store_ok (cleanup_table w tid) live /\ w_pool (cleanup_table w tid) = w_pool w /\
+  (forall e, ent_cells (cleanup_table w tid) e = ent_cells w e).
+Proof.
+  intros S. unfold cleanup_table. destruct (w_tables w !! tid) as [t|] eqn:Ht; [|done].
+  destruct (w_nodes w !! t_node t); [|done].
+  destruct (0 <? tlen t) eqn:Hlen; [done|]. apply Nat.ltb_ge in Hlen. simpl.
+  destruct (_ || _); [done|]. destruct (_ || _); [done|].
+  destruct (retire_table_keeps w live tid t S Ht ltac:(lia)) as (S' & Hp & _ & Hc & _). done.
+Qed.
+
+Lemma cleanup_tables_for_keeps w live target :
+  store_ok w live ->
+  store_ok (cleanup_tables_for w target) live /\ w_pool (cleanup_tables_for w target) = w_pool w /\
+  (forall e, ent_cells (cleanup_tables_for w target) e = ent_cells w e).
+Proof.
+  unfold cleanup_tables_for. generalize (seq 0 (length (w_nodes w))). intros l. revert w.
+  induction l as [|nid r IH]; intros w S; simpl; [done|].
+  set (w1 := match w_nodes w !! nid with
+             | Some nd => match assoc_get target (n_tmap nd) with
+                          | Some tid => match w_tables w !! tid with
+                                        | Some t => if tlen t =? 0 then retire_table w tid else w
+                                        | None => w end
+                          | None => w end
+             | None => w end).
+  assert (H1 : store_ok w1 live /\ w_pool w1 = w_pool w /\ forall e, ent_cells w1 e = ent_cells w e).
+  { unfold w1. destruct (w_nodes w !! nid); [|done]. destruct (assoc_get _ _) as [tid|]; [|done].
+    destruct (w_tables w !! tid) as [t|] eqn:Ht; [|done]. destruct (tlen t =? 0) eqn:Hl; [|done].
+    apply Nat.eqb_eq in Hl. destruct (retire_table_keeps w live tid t S Ht Hl) as (S' & Hp & _ & Hc & _). done. }
+  destruct H1 as (S1 & Hp1 & Hc1). destruct (IH w1 S1) as (S2 & Hp2 & Hc2).
+  split; [done|]. split; [congruence|]. intros e. by rewrite Hc2.
+Qed.
+
+(** [store_ok] and [ent_cells] only look at tables, index and nodes. *)
+Lemma store_ok_fields w w' live :
+  w_tables w' = w_tables w -> w_index w' = w_index w -> w_nodes w' = w_nodes w ->
+  store_ok w live -> store_ok w' live /\ forall e, ent_cells w' e = ent_cells w e.
+Proof.
+  intros Ht Hi Hn [S1 S2 S3 S4]. split.
+  - split; unfold loc in *; rewrite ?Ht, ?Hi, ?Hn; done.
+  - intros e. unfold ent_cells, loc. by rewrite Ht, Hi.
+Qed.
+
+Lemma live_chk_alive p live issued frees e :
+  pool_inv p live issued frees -> e ∈ live -> pool_alive_opt p e = Some true.
+Proof.
+  intros P He. destruct (pi_live_slot _ _ _ _ P e He) as [_ Hs]. unfold pool_alive_opt. rewrite Hs. simpl. by rewrite N.eqb_refl.
+Qed.
+
+Lemma store_ok_set_tbits w live tb :
+  store_ok w live -> store_ok (w <| w_tbits := tb |>) live /\ forall e, ent_cells (w <| w_tbits := tb |>) e = ent_cells w e.
+Proof. intros S. by apply store_ok_fields. Qed.
+
+(** World.RemoveEntity (any world, relation tables and target clean-up included): the
+    entity is gone, every other alive entity keeps its node, target and cells. *)
+Theorem remove_entity_ok w live issued frees e :
+  store_ok w live -> pool_inv (w_pool w) live issued frees -> e ∈ live -> (egen e < gen_max)%N ->
+  is_locked w = false ->
+  let r := op_remove_entity w e in
+  snd (fst r) = Ok VUnit /\
+  store_ok (fst (fst r)) (filter (fun x => x <> e) live) /\
+  pool_inv (w_pool (fst (fst r))) (filter (fun x => x <> e) live) issued (eid e :: frees) /\
+  (forall e', e' ∈ live -> e' <> e -> ent_cells (fst (fst r)) e' = ent_cells w e') /\
+  pool_alive (w_pool (fst (fst r))) e = false.
+Proof.
+  intros S P He Hg HL. unfold op_remove_entity. rewrite HL.
+  destruct (so_loc _ _ S e He) as (src & row & st & Hloc & Hst & Hrow).
+  destruct (so_table _ _ S src st Hst) as (sn & Hsn & Hok).
+  unfold ent_table, chk_alive. rewrite (live_chk_alive _ _ _ _ _ P He), Hloc, Hst, Hsn.
+  pose proof (remove_row_ok w live e src row st sn S He Hloc Hst Hsn) as HR. unfold remove_row in HR.
+  destruct (tbl_remove (zero_row sn) st row) as [st1 swapped].
+  destruct HR as (S1 & Hn1 & Hc1 & _ & _ & _).
+  destruct (pool_recycle_inv (w_pool w) live issued frees e P He Hg) as (P1 & Hdead & _).
+  set (idx1 := if swapped then match t_ents st1 !! row with Some se => <[eid se := Some (src, row)]> (w_index w) | None => w_index w end else w_index w) in *.
+  set (wr := w <| w_tables := <[src := st1]> (w_tables w) |> <| w_index := <[eid e := None]> idx1 |>) in *.
+  match goal with |- context [cleanup_table ?x src] => set (w2 := x) end.
+  (* w1 of the operation = wr up to locks and pool *)
+  match goal with _ := (if tbit ?y _ then _ else _) |- _ => set (w1 := y) in * end.
+  destruct (store_ok_fields wr w1 (filter (fun x => x <> e) live) eq_refl eq_refl eq_refl S1) as (S1' & Hc1').
+  assert (H2 : store_ok w2 (filter (fun x => x <> e) live) /\ w_pool w2 = pool_recycle (w_pool w) e /\ forall e0, ent_cells w2 e0 = ent_cells w1 e0).
+  { unfold w2. destruct (tbit w1 (eid e)); [|done].
+    destruct (cleanup_tables_for_keeps w1 _ e S1') as (Sa & Hpa & Hca).
+    destruct (store_ok_set_tbits (cleanup_tables_for w1 e) _ (<[eid e := false]> (w_tbits w1)) Sa) as (Sb & Hcb).
+    split; [done|]. split; [done|]. intros e0. by rewrite Hcb, Hca. }
+  destruct H2 as (S2 & Hp2 & Hc2).
+  destruct (cleanup_table_keeps w2 _ src S2) as (S3 & Hp3 & Hc3).
+  simpl. split; [done|]. split; [done|]. split; [by rewrite Hp3, Hp2|]. split.
+  - intros e' He' Hne. by rewrite Hc3, Hc2, Hc1', Hc1.
+  - by rewrite Hp3, Hp2.
+Qed.
